@@ -41,6 +41,7 @@ class Monitors:
         self.op_mark = 0
         self.had_join = False
         self.hist_mark = {}
+        self.start_exec = {}    # message id of a start event -> execution ARN it started
         self.snap = {}          # arn -> record snapshot taken when first seen terminal
         self.hist_len_at_term = {}
         self.err = ""
@@ -146,11 +147,19 @@ class Monitors:
                 if any(e["type"] in ("ParallelStateExited", "MapStateExited") for e in new_events):
                     joined_now = True
             acked = {}          # execution ARN -> first event acknowledged for it in this step
+            pending_start = None
             for o in ops:
                 if o[0] == "multi-ack":
                     self.fail("C03 delivery %s acknowledged by a multiple-ack of another message" % (o[2],))
+                # a start event carries no execution ARN: it belongs to the execution whose RUNNING notification
+                # its handler sends
+                if o[0] == "deliver" and o[1].startswith("ev"):
+                    pending_start = o[2]
+                elif o[0] == "broadcast" and o[1].endswith(".RUNNING") and pending_start is not None:
+                    self.start_exec.setdefault(pending_start, o[2]); pending_start = None
                 if o[0] == "ack" and o[1].startswith("ev"):
-                    acked.setdefault(o[3] if len(o) > 3 else None, o)
+                    ex_a = (o[3] if len(o) > 3 else None) or self.start_exec.get(o[2])
+                    acked.setdefault(ex_a, o)
                 elif acked and (o[0] == "broadcast" or (o[0] == "publish" and o[1].startswith("ev"))):
                     # consequences are attributed per execution: one step can complete a child execution and, from
                     # inside the child's end_execution, resume and finish its parent (whose own event is then
